@@ -806,6 +806,15 @@ static void worker_loop(Profile *prof, const DriverOpts &o, bool thorough, uint6
             }
         }
         Outcome out = prof->judge(plan, ex);
+        if (const char *hl = getenv("H4SIM_HASHLOG")) {
+            // determinism validation (tools/determinism.sh): one line per case, compared between two batches of the same seed
+            FILE *hf = fopen(strf("%s/w%d.hash", hl, w).c_str(), "a");
+            if (hf) {
+                fprintf(hf, "%llu %016llx %d %016llx %016llx %016llx %u %d %s\n", (unsigned long long)r, (unsigned long long)plan.hash(), out.status,
+                        (unsigned long long)out.st.evhash, (unsigned long long)out.st.transcript, (unsigned long long)out.st.diskhash, out.st.nevents, out.st.ops_done, out.v.key.c_str());
+                fclose(hf);
+            }
+        }
         a.runs++;
         a.status_counts[out.status]++;
         add_stats(a.st, out.st);
